@@ -12,10 +12,15 @@ EXIT_BOUND = 6.0      # seconds from signal to process exit (observed ~0.5-1.5 s
 START_SLACK = 0.25    # a command whose shell was already being spawned when the signal arrived
 
 
-def make_ws(ws, r):
-    """chain a <- b <- c plus independent d, e; every command logs S/E with a timestamp and its shell pid"""
-    names = ["a", "b", "c", "d", "e"]
-    deps = {"a": [], "b": ["a"], "c": ["b"], "d": [], "e": ["d"]}
+def make_ws(ws, r, workers=None):
+    """chain a <- b <- c plus independent d, e -- or ("wide") eight independent targets, so that with 1-2 workers the pool has a
+    backlog of queued jobs when the signal arrives; every command logs S/E with a timestamp and its shell pid"""
+    if r.chance(1, 2):
+        names = ["a", "b", "c", "d", "e"]
+        deps = {"a": [], "b": ["a"], "c": ["b"], "d": [], "e": ["d"]}
+    else:
+        names = ["w%d" % i for i in range(8)]
+        deps = {n: [] for n in names}
     sleeps = {n: r.choice(["0.3", "0.6", "1.0"]) for n in names}
     targets = []
     for n in names:
@@ -29,7 +34,7 @@ def make_ws(ws, r):
     os.makedirs(os.path.join(ws, "p"), exist_ok=True)
     json.dump({"targets": targets}, open(os.path.join(ws, "p", "BUILD.json"), "w"), indent=1)
     open(os.path.join(ws, "p", "in.txt"), "w").write("input")
-    open(os.path.join(ws, "grog.toml"), "w").write("")
+    open(os.path.join(ws, "grog.toml"), "w").write("num_workers = %d\n" % workers if workers else "")
     return names
 
 
@@ -65,10 +70,10 @@ def one_case(args):
     d = os.path.join(base, "c18-%d" % k)
     ws, root, trace = os.path.join(d, "ws"), os.path.join(d, "root"), os.path.join(d, "trace")
     os.makedirs(root, exist_ok=True)
-    names = make_ws(ws, r)
+    workers = vlib.Rng(seed * 31 + k).choice([1, 2, 2, 4])
+    names = make_ws(ws, r, workers)
     sig = r.choice([signal.SIGINT, signal.SIGTERM])
     delay = [0.02, 0.1, 0.25, 0.45, 0.7, 1.0, 1.4, 1.9, 2.6][r.below(9)] + r.below(100) / 1000.0
-    workers = r.choice([1, 2, 4])
     env = bl.grog_env(root, trace)
     env["GROG_NUM_WORKERS"] = str(workers)
     t0 = time.time()
@@ -118,7 +123,7 @@ def one_case(args):
     got = outputs(ws, names)
     ws2, root2 = os.path.join(d, "ws2"), os.path.join(d, "root2")
     os.makedirs(root2, exist_ok=True)
-    make_ws(ws2, vlib.Rng(seed * 9176 + k))
+    make_ws(ws2, vlib.Rng(seed * 9176 + k), workers)
     env2 = bl.grog_env(root2, os.path.join(d, "trace2"))
     subprocess.run([grog, "build", "//..."], cwd=ws2, env=env2, stdout=subprocess.PIPE, stderr=subprocess.PIPE, text=True, timeout=60)
     want = outputs(ws2, names)
@@ -150,7 +155,8 @@ def run(out, tier):
             out.violation("%s (signal %s after %.2f s, %d workers)" % (pr, x["signal"], x["delay"], x["workers"]), x)
     out.cov.update({
         "evaluations": len(res), "distinct_nontrivial": len(nontriv),
-        "rule": "5-target workspace (chain of 3 + chain of 2, commands sleep 0.3-1.0 s), grog build //... with 1/2/4 workers, SIGINT or SIGTERM at a "
+        "rule": "5-target workspace (chain of 3 + chain of 2) or 8 independent targets (a backlog of queued jobs with 1-2 workers), commands sleep "
+                "0.3-1.0 s, grog build //... with num_workers 1/2/4 (grog.toml), SIGINT or SIGTERM at a "
                 "seeded delay between 0.02 and 2.7 s; non-trivial = the signal arrived while at least one target command had started and the "
                 "build had not finished",
         "samples": [{k: v for k, v in x.items() if k != "problems"} for x in res[:3]],
